@@ -313,15 +313,31 @@ func c10Inputs(c *core.Ctx) []c10Input {
 // without a valid handshake.
 func c10ClientPaths(c *core.Ctx) {
 	r := c.Rng
-	key, chost, shost, nonce := []byte("k3y"), []byte("client"), []byte("server"), []byte{1, 2, 3}
-	helo := mustMarshal(&protocol.Helo{MessageType: "HELO", Options: &protocol.HeloOpts{Nonce: nonce, Auth: []byte{}, Keepalive: true}})
+	key, chost := []byte("k3y"), []byte("client")
 	for i := 0; i < c.N(400, 8000); i++ {
+		// the peer chooses the nonce (HELO) and the server hostname (PONG): any length
+		shost, nonce := []byte("server"), []byte{1, 2, 3}
+		if i%4 == 1 {
+			nonce = bytes.Repeat([]byte{byte(i)}, []int{0, 300, 1000, 1100, 5000, 9000}[r.Intn(6)])
+		}
+		if i%4 == 2 {
+			shost = bytes.Repeat([]byte{'h'}, []int{0, 300, 1000, 1100, 5000}[r.Intn(5)])
+		}
+		helo := mustMarshal(&protocol.Helo{MessageType: "HELO", Options: &protocol.HeloOpts{Nonce: nonce, Auth: []byte{}, Keepalive: true}})
 		seed := r.Int63()
 		salt := make([]byte, 16)
 		rand.New(rand.NewSource(seed)).Read(salt)
 		good := sha512hex(salt, shost, nonce, key)
 		digest := good
-		switch r.Intn(8) {
+		switch r.Intn(9) {
+		case 8:
+			// a digest a peer WITHOUT the key can compute: SHA-512 over a prefix of the public material
+			pub := append(append(append([]byte{}, salt...), shost...), nonce...)
+			cut := []int{64, 128, 256, 512, 1024, 2048, 4096, 8192}[r.Intn(8)]
+			if cut > len(pub) {
+				cut = len(pub)
+			}
+			digest = sha512hex(pub[:cut])
 		case 0:
 			digest = ""
 		case 1:
@@ -335,10 +351,28 @@ func c10ClientPaths(c *core.Ctx) {
 			b[r.Intn(len(b))] ^= 1
 			digest = string(b)
 		}
-		pong := mustMarshal(&protocol.Pong{MessageType: "PONG", AuthResult: r.Intn(6) != 0, ServerHostname: string(shost), SharedKeyHexDigest: digest})
+		long := len(nonce) > 100 || len(shost) > 100
+		if long { // long peer-chosen fields: the honest peer, or the keyless prefix digest -- delivered unmutated
+			if r.Intn(2) == 0 {
+				digest = good
+			} else {
+				pub := append(append(append([]byte{}, salt...), shost...), nonce...)
+				cut := []int{64, 128, 256, 512, 1024, 2048, 4096, 8192}[r.Intn(8)]
+				if cut > len(pub) {
+					cut = len(pub)
+				}
+				digest = sha512hex(pub[:cut])
+			}
+		}
+		pong := mustMarshal(&protocol.Pong{MessageType: "PONG", AuthResult: long || r.Intn(6) != 0, ServerHostname: string(shost), SharedKeyHexDigest: digest})
 		inp1, inp2 := helo, pong
 		how := "well-formed HELO, PONG with digest variant"
-		switch r.Intn(4) {
+		mut := r.Intn(4)
+		if long {
+			mut = 3
+			how = "long nonce / server hostname, honest or keyless-prefix digest"
+		}
+		switch mut {
 		case 0:
 			inp2, _ = gen.Mutate(r, pong)
 			how = "mutated PONG"
